@@ -337,6 +337,22 @@ def
                     if ($6.flags & ARG_IS_PROTO) {
                         yyerror("Missing name for function argument");
                     }
+                    if (locals_ptr != locals) {
+                        /* a function literal abandoned by error recovery left the table pointers inside the
+                         * tables: release its entries and return to the function's own window, where the
+                         * argument types are */
+                        free_all_local_names();
+                        while (locals_ptr > locals) {
+                            --locals_ptr;
+                            (*locals_ptr)->sem_value--;
+                            (*locals_ptr)->dn.local_num = -1;
+                        }
+                        type_of_locals_ptr = type_of_locals;
+                        runtime_locals_ptr = runtime_locals;
+#ifdef NEOLITH_VERIF
+                        VERIF_CTRACE ("local.fn_reset", (locals_ptr - locals) + current_number_of_locals, locals_size);
+#endif
+                    }
                     fun = define_new_function($3, $6.num_arg, 
                                               max_num_locals - $6.num_arg,
                                               $<number>8, $1 | $2);
